@@ -309,7 +309,9 @@ class Env:
         R = self.R
         times = [210, 240, 270, 300, 330, 360]
         ev = [R.on_next(150, elems[0])] + [R.on_next(t, e) for t, e in zip(times, elems)]
-        if self.kind == "completes":
+        if self.kind == "empty":          # no element after the subscription instant (200), completion at 400
+            ev = ev[:1] + [R.on_completed(400)]
+        elif self.kind == "completes":
             ev.append(R.on_completed(400))
         else:
             ev.append(R.on_error(400, RuntimeError("boom")))
@@ -416,6 +418,21 @@ def recipes():
     return ints, G, S
 
 
+KINDS = ("completes", "fails", "empty")
+# falsy NON-None values per parameter name: `x or default`, `if not x`, `if x` slips (and forwarding slips inside an
+# `is None` / `is NotSet` branch whose effect only shows on a falsy or absent value) give a concrete call.
+# Time parameters are left out (a zero period makes a virtual-time loop at one instant).
+FALSY = {"buffer_size": [0], "default_value": [0, ""], "has_default": [False], "inclusive": [False],
+         "max_concurrent": [0], "repeat_count": [0], "retry_count": [0], "seed": [0, ""], "skip": [0],
+         "start": [0], "stop": [0], "step": [0], "window": [0], "count": [0], "index": [0],
+         "initial_value": [""], "value": [0], "key": [""]}
+FALSY_ELEMS = {"pluck": [{"": i, "k": -i} for i in [3, 4, 1, 4, 6, 2]]}
+
+
+def base_name(k):
+    return k.split("=")[0]
+
+
 class FakeFuture:
     def __init__(self):
         self.state = None
@@ -469,6 +486,26 @@ def variants(params, rng=None, extra=0):
     for p in poskw + kwonly:
         if p.default is not P.empty:
             out.append((f"explicit-default-{p.name}", req, kreq + [p.name + "=<default>"], 0))
+    # falsy non-None values: each falsy-capable parameter alone (positionally and by keyword), then all at once
+    allp = req + opt
+    for p in poskw + kwonly:
+        for j, _ in enumerate(FALSY.get(p.name, [])):
+            tok = f"{p.name}=<falsy{j}>"
+            if p.name in allp:
+                i = allp.index(p.name)
+                if p.name in opt:
+                    out.append((f"falsy{j}-{p.name}-keyword", req, kreq + [tok], 0))
+                else:
+                    out.append((f"falsy{j}-{p.name}-keyword", [], [tok if n == p.name else n for n in req] + kreq, 0))
+                out.append((f"falsy{j}-{p.name}-positional", allp[:i] + [tok], kreq, 0))
+            else:
+                out.append((f"falsy{j}-{p.name}-keyword", req, [tok if n == p.name else n for n in kreq] +
+                            ([tok] if p.name in kopt else []), 0))
+    if any(p.name in FALSY for p in poskw + kwonly):
+        fz = lambda ns: [f"{n}=<falsy0>" if n in FALSY else n for n in ns]
+        out.append(("falsy-all-positional", fz(allp), fz(kreq + kopt), 0))
+        if not star:
+            out.append(("falsy-all-keyword", [], fz(allp + kreq + kopt), 0))
     # thorough tier: random positional-prefix / keyword-subset splits (keywords in random order)
     for j in range(extra if rng is not None else 0):
         allp = req + opt
@@ -486,7 +523,12 @@ def variants(params, rng=None, extra=0):
 
 
 def run_form(form, name, method_fn, layout, kind, ints, G, S):
-    """form: 'method' | 'pipe'.  -> outcome (JSON-able)"""
+    """form: 'method' | 'pipe'.  -> outcome (JSON-able); a run that does not end within 10 s is an outcome too"""
+    st, r = lib.with_timeout(10, run_form_, form, name, method_fn, layout, kind, ints, G, S)
+    return r if st == "ok" else {"timeout": "no end within 10 s"}
+
+
+def run_form_(form, name, method_fn, layout, kind, ints, G, S):
     import reactivex as rx
     from reactivex import operators as ops
     from reactivex.observable import ConnectableObservable
@@ -496,12 +538,16 @@ def run_form(form, name, method_fn, layout, kind, ints, G, S):
     params = {p.name: p for p in params_of(method_fn, True)}
 
     def val(pn):
+        if pn.endswith(">") and "=<falsy" in pn:
+            return FALSY[base_name(pn)][int(pn[-2])]
         f = spec.get(pn) or G.get(pn)
         if f is None:
             raise KeyError(f"no recipe for parameter {pn} of {name}")
         return f(E)
 
     elems = spec.get("_elems", ints)
+    if name in FALSY_ELEMS and any("=<falsy" in k for k in list(posn) + list(kwn)):
+        elems = FALSY_ELEMS[name]
     if elems == "observables":
         elems = [rx.of(1, 2), E.other(), rx.of(3), E.other(40), rx.empty(), rx.of(4, 5)]
     src = E.source(elems)
@@ -518,7 +564,7 @@ def run_form(form, name, method_fn, layout, kind, ints, G, S):
             k0 = k[:-len("=<default>")]
             kw[k0] = params[k0].default
         else:
-            kw[k] = val(k)
+            kw[base_name(k)] = val(k)
     try:
         if form == "method":
             res = getattr(src, name)(*pos, **kw)
@@ -559,6 +605,9 @@ def run_form(form, name, method_fn, layout, kind, ints, G, S):
             if isinstance(res, ConnectableObservable):
                 E.S.schedule_absolute(205, lambda *_: res.connect())
             E.S.schedule_absolute(200, lambda *_: record("r", res))
+            # a second, late subscription to the same result (what a replay buffer / a shared subject hands to a
+            # late subscriber is part of the behaviour)
+            E.S.schedule_absolute(350, lambda *_: record("late", res))
             E.S.schedule_absolute(1000, lambda *_: None)
             E.S.start()
     except Exception as e:
@@ -580,7 +629,7 @@ def classify(name, method_fn, op_fn, layout):
         k0 = k.split("=")[0]
         if k0 not in onames:
             return f"kwname|{name}|{k0}"
-    given = set(posn) | {k.split("=")[0] for k in kwn}
+    given = {base_name(k) for k in posn} | {k.split("=")[0] for k in kwn}
     for i, p in enumerate(mp):
         if p.name not in given and p.default is not inspect.Parameter.empty and i < len(op) \
                 and op[i].default is inspect.Parameter.empty \
@@ -634,8 +683,9 @@ def run(chk):
 
     # ---- (2) differential run = oracle --------------------------------------
     ints, G, S = recipes()
-    hist = {"layouts": {}, "source": {"completes": 0, "fails": 0}, "construction_TypeError_both": 0,
-            "methods": len(methods)}
+    hist = {"layouts": {}, "source": {k: 0 for k in KINDS}, "construction_TypeError_both": 0,
+            "methods": len(methods), "falsy_non_none_argument_runs": 0, "falsy_parameters": {},
+            "timeouts_both_forms": 0}
     nontrivial = set()
     sig_notes = {}
     missing_recipe = []
@@ -650,7 +700,7 @@ def run(chk):
         if ms != osig:
             sig_notes[name] = {"method": ms, "operator": osig}
         for layout in variants(params_of(mfn, True), chk.rng, 0 if chk.tier == "quick" else 12):
-            for kind in ("completes", "fails"):
+            for kind in KINDS:
                 try:
                     a = run_form("method", name, mfn, layout, kind, ints, G, S)
                     b = run_form("pipe", name, mfn, layout, kind, ints, G, S)
@@ -663,6 +713,12 @@ def run(chk):
                 hist["source"][kind] += 1
                 if "raise" in a and "raise" in b:
                     hist["construction_TypeError_both"] += 1
+                if "timeout" in a and "timeout" in b:
+                    hist["timeouts_both_forms"] += 1
+                for k in list(layout[1]) + list(layout[2]):
+                    if "=<falsy" in k:
+                        hist["falsy_non_none_argument_runs"] += 1
+                        hist["falsy_parameters"][base_name(k)] = hist["falsy_parameters"].get(base_name(k), 0) + 1
                 if a != b:
                     sig = classify(name, mfn, ofn, layout)
                     chk.violation(sig, {"method": name, "arguments": {"positional": layout[1], "keyword": layout[2],
@@ -685,8 +741,11 @@ def run(chk):
     chk.cov["rule"] = ("differential: every public function defined by a mixin class of Observable (found by "
                        "introspection, not by the translator) x argument layouts (all positional, defaults omitted, all "
                        "keyword, required by keyword, each optional alone by keyword, prefixes of optionals, explicit "
-                       "default values, 0/1/2 *args) x hot source that completes / fails, run as source.NAME(args) and "
-                       "as source.pipe(ops.NAME(args)) on fresh TestSchedulers with identical fresh arguments; "
+                       "default values, 0/1/2 *args; for every parameter that admits one, a falsy NON-None value (0, '', "
+                       "False: table FALSY) alone positionally, alone by keyword, and all at once) x hot source that "
+                       "completes / fails / completes without any element, run as source.NAME(args) and "
+                       "as source.pipe(ops.NAME(args)) on fresh TestSchedulers with identical fresh arguments, the result "
+                       "subscribed at 200 and a second time at 350; "
                        "non-trivial = distinct (method, layout, source) on which both forms agree and more than one "
                        "notification was recorded.  binding correspondence: generated call shapes per method incl. "
                        "rejected ones (counts in input_distribution)")
@@ -725,4 +784,6 @@ def replay(chk, path):
     print("fluent:", json.dumps(a, default=repr)[:1500])
     print("piped: ", json.dumps(b, default=repr)[:1500])
     print("equal" if a == b else "DIFFERENT")
+    if a != b:
+        print(f"VIOLATION property=C39 replay={path}")
     return 0 if a == b else 1
